@@ -61,7 +61,9 @@ def soups(draw):
                 "strs": {"P_S": PICK(draw, STRS), "P_T": PICK(draw, STRS)},
                 "floats": {"P_F": PICK(draw, [1.5, -0.25, 1e30, 0.0])},
                 "consts": {"P_C": [draw(INT(0, 7)), 3, False], "P_D": [draw(INT(-4, 3)), 3, True], "P_E": [0, 0, False]},
-                "attrs": {"keep": 1, "note": PICK(draw, STRS), "neg": draw(INT(-9, -1))},
+                # (an attribute may be called src, like the one the back end adds itself: the given value stands)
+                "attrs": {"keep": 1, "note": PICK(draw, STRS), "neg": draw(INT(-9, -1)),
+                          **({"src": PICK(draw, STRS)} if draw(INT(0, 2)) == 0 else {})},
                 "in_w": draw(INT(0, 4)), "out_w": draw(INT(1, 4)), "io_w": draw(INT(0, 2)), "where": draw(INT(0, nleaf - 1)),
                 "name": PICK(draw, [None, "u_ext", "x"])}
     return {"leaves": leaves, "inst": inst,
